@@ -329,6 +329,16 @@ def c10(si, arrs, G, tmin, statuses, legal, ties=False, subsets_max=4, query_ext
                     t2, D2 = si.summary(list(sub))
                 except Exception as e:
                     bad.append(("subset_exc", "summary(%r) raised %r" % (list(sub), e))); break
+                # asking for a subset does not change what the object says about the whole population afterwards
+                try:
+                    t3, D3 = si.summary()
+                    if list(np.asarray(t3).tolist()) != times or any(list(np.asarray(D3[s]).tolist()) != [r[s] for r in rows] for s in statuses) \
+                            or list(np.asarray(si.t()).tolist()) != times:
+                        bad.append(("reread_summary", "after summary(%r) the object's summary()/t() for the whole population changed: t=%s %s, before t=%s %s"
+                                    % (list(sub), list(np.asarray(t3).tolist()), {s: list(np.asarray(D3[s]).tolist()) for s in statuses}, times, rows)))
+                        break
+                except Exception as e:
+                    bad.append(("reread_exc", "summary() after summary(%r) raised %r" % (list(sub), e))); break
                 ht = {v: hist[v] for v in sub}
                 tt, rr = summary_from_hist(ht, statuses)
                 if list(np.asarray(t2).tolist()) != tt or any(
